@@ -73,8 +73,8 @@ func NormalizeComparisonOperators(expr string) string {
 
 // IsVariablePath reports whether expr has the shape of a variable path:
 // an identifier followed by .name and [index] steps (user.name, items[0].title,
-// m['key']). Anything else - literals, unary or unspaced operators - is an
-// expression for the evaluator.
+// m['key']) with literal indexes. Anything else - literals, unary or unspaced
+// operators, a variable or computed index - is an expression for the evaluator.
 func IsVariablePath(expr string) bool {
 	expr = strings.TrimSpace(expr)
 	switch expr {
@@ -108,8 +108,29 @@ func IsVariablePath(expr string) bool {
 			if end < 0 {
 				return false
 			}
+			// items[k], items[i+1], items[-1]: the index is an expression itself
+			if !isLiteralIndex(strings.TrimSpace(expr[i+1 : i+end])) {
+				return false
+			}
 			i += end + 1
 		default:
+			return false
+		}
+	}
+	return true
+}
+
+// isLiteralIndex reports whether the text between [ and ] is a number or a
+// quoted string, the only indexes the variable stack resolves by itself.
+func isLiteralIndex(s string) bool {
+	if s == "" {
+		return false
+	}
+	if n := len(s); n >= 2 && (s[0] == '\'' || s[0] == '"') && s[n-1] == s[0] {
+		return true
+	}
+	for i := 0; i < len(s); i++ {
+		if s[i] < '0' || s[i] > '9' {
 			return false
 		}
 	}
